@@ -23,3 +23,13 @@ Theorem C15_applied_everywhere : forall (e : entry) (stmts : list statement) sql
   sqlite_effects sql = Some effs -> effs <> [] -> store_refuses e stmts = Some true.
 Proof. exact applied_everywhere_flags. Qed.
 Print Assumptions C15_applied_everywhere.
+
+(* Second tie (DESIGN 3.5, docs/gotrans.md): sqlToken as translated from db/state.go on this run (fuelled; strings as
+   byte lists) returns, for every non-empty text and enough fuel, the kind and length the model's tokenizer g_token
+   returns — the tokenizer under `guard` / C15_guard_complete. *)
+From Coq Require Import ZArith List.
+From RQ Require Import Lib.GoLib Gen.SqlToken Proofs.C15_Gen.
+Theorem C15_source_derived_eq : forall (s : bytes) (fuel : nat), s <> nil -> (List.length s < fuel)%nat ->
+  sqlToken (zs s) fuel = Some (kind_code (fst (g_token s)), Z.of_nat (snd (g_token s))).
+Proof. exact gen_sqlToken_eq. Qed.
+Print Assumptions C15_source_derived_eq.
